@@ -71,6 +71,8 @@ func main() {
 		verbose  = flag.Bool("v", false, "verbose")
 		unroll   = flag.Int("unroll", 64, "loop unwinding bound per frame and block")
 		dumpDir  = flag.String("dump", "", "directory for standalone verdict queries")
+		dumpMax  = flag.Int("dumpmax", 4, "maximum number of verdict queries to dump")
+		dumpEv   = flag.Int("dumpevery", 37, "dump every n-th verdict query")
 		slog     = flag.String("solverlog", "", "log of solver input")
 		list     = flag.Bool("list", false, "list harness functions")
 		noMerge  = flag.Bool("nomerge", false, "disable function-level state merging")
@@ -133,7 +135,7 @@ func main() {
 	}
 	defer sv.Close()
 	x := &Explorer{prog: prog, pkg: pkg, harness: hf, solver: sv, params: map[string]int{}, maxPaths: *maxPaths,
-		verbose: *verbose, maxUnroll: *unroll, dumpDir: *dumpDir, noMerge: *noMerge, eager: *eager}
+		verbose: *verbose, maxUnroll: *unroll, dumpDir: *dumpDir, noMerge: *noMerge, eager: *eager, dumpMax: *dumpMax, dumpEvery: *dumpEv}
 	for _, p := range params {
 		k, v, _ := strings.Cut(p, "=")
 		n, _ := strconv.Atoi(v)
